@@ -530,6 +530,9 @@ func (v *verdict) judge(res []*answer) error {
 // The predicates are over the input (which file was damaged); the symptom narrows what is
 // tolerated for that input.
 func knownFinding(fc *faultCase, sym, detail string) string {
+	if strings.Contains(detail, "cannot allocate memory") {
+		detail += " (out of memory)" // the runtime's other wording for the same failure
+	}
 	switch fc.Kind {
 	case "bsu":
 		// block summaries (.bsu) hold record counts, time ranges and the offset/length of every
@@ -716,6 +719,11 @@ func runsTree(fc *faultCase) bool {
 }
 
 func v18crash(fc *faultCase, o *pt.Obs, step, detail string) error {
+	if strings.Contains(detail, "pthread_create failed") || strings.Contains(detail, "failed to create new OS thread") {
+		// the process could not get a thread from the operating system (machine-wide limits
+		// under load): environment trouble, not an observation about the fault
+		return pt.Inconclusivef("fault {%s}: the server could not create a thread during %q", fc, step)
+	}
 	o.Class("outcome_crash")
 	o.NonTrivial()
 	o.Class("noticed_" + fc.Kind)
